@@ -210,3 +210,90 @@ Proof.
   split; [exact E|]. rewrite E. unfold contents. repeat (rewrite !items_of_sec; cbn [items_list items_of I32 I64 app]).
   rewrite ?app_length. cbn [length]. rewrite ?app_length. cbn [length]. lia.
 Qed.
+
+(* ---- the footnotes under a table ---- *)
+Lemma firsts_app seen a b : firsts seen (a ++ b) = firsts (firsts seen a) b.
+Proof.
+  revert seen. induction a as [|x a IH]; intros seen; cbn [app firsts]; [reflexivity|].
+  destruct x as [|c x']; [apply IH|]. destruct (index_of (c :: x') seen 1); apply IH.
+Qed.
+
+Lemma create_citation_firsts f t : fn_list (fst (create_citation f t)) = firsts (fn_list f) [t].
+Proof.
+  unfold create_citation. cbn [firsts]. destruct t as [|c t']; [reflexivity|].
+  destruct (index_of (c :: t') (fn_list f) 1); reflexivity.
+Qed.
+
+Lemma emit_item_footnotes i t indent f :
+  fn_list (snd (emit_item i t indent f)) = firsts (fn_list f) (map it_footnote (filter (visible t) [i])).
+Proof.
+  unfold emit_item, visible. cbn [filter]. destruct (level_of_concern i t) as [lvl|]; [|reflexivity].
+  destruct (format_value (it_sys i) (it_value i) (it_overflow i)) as [num u].
+  pose proof (create_citation_firsts f (it_footnote i)) as H.
+  destruct (create_citation f (it_footnote i)) as [f' cit]. cbn [fst snd map] in *. exact H.
+Qed.
+
+(* the footnote list after emitting any contents: the distinct non-empty footnote texts of the items SHOWN, in order of
+   first appearance, appended to those that were there before *)
+Theorem emit_footnotes : forall c t indent f,
+  fn_list (snd (emit c t indent f)) = firsts (fn_list f) (map it_footnote (shown c t)).
+Proof.
+  fix IH 1. intros c t indent f. destruct c as [name cs|i|d i].
+  - rewrite emit_sec. unfold shown. rewrite items_of_sec.
+    assert (G : forall cs buf f, fn_list (snd (emit_list emit t indent name cs buf f)) =
+                                 firsts (fn_list f) (map it_footnote (filter (visible t) (items_list cs)))).
+    { clear cs f. intros cs. induction cs as [|c cs IHcs]; intros buf f.
+      - reflexivity.
+      - cbn [emit_list items_list]. pose proof (IH c t (indent + 1) f) as Hc.
+        destruct (emit c t (indent + 1) f) as [sub f'] eqn:E. cbn [snd] in Hc.
+        rewrite IHcs, Hc. unfold shown. rewrite filter_app, map_app, firsts_app. reflexivity. }
+    apply G.
+  - cbn [emit]. unfold shown. cbn [items_of]. apply emit_item_footnotes.
+  - cbn [emit]. unfold shown. cbn [items_of].
+    pose proof (emit_item_footnotes i t (indent + d) f) as H.
+    destruct (emit_item i t (indent + d) f) as [sub f']. exact H.
+Qed.
+
+(* so under a table: exactly the footnotes of the rows shown — every footnote belongs to a shown row, none is missing, numbered
+   1..k in order of first citation, identical texts sharing one number *)
+Corollary table_footnotes c t :
+  fn_list (snd (emit c t (-1) (mk_fn []))) = firsts [] (map it_footnote (shown c t)).
+Proof. apply emit_footnotes. Qed.
+
+Lemma firsts_spec texts : forall seen x, In x (firsts seen texts) <-> In x seen \/ (In x texts /\ x <> []).
+Proof.
+  induction texts as [|t ts IH]; intros seen x; cbn [firsts].
+  - split; [intros H; left; exact H|intros [H|[[] _]]; exact H].
+  - destruct t as [|c t'].
+    + rewrite IH. split; intros [H|[H Hn]].
+      * left; exact H.
+      * right. split; [right; exact H|exact Hn].
+      * left; exact H.
+      * destruct H as [H|H]; [subst; congruence|right; split; assumption].
+    + destruct (index_of (c :: t') seen 1) as [k|] eqn:Ei.
+      * rewrite IH. split; intros [H|[H Hn]].
+        -- left; exact H.
+        -- right. split; [right; exact H|exact Hn].
+        -- left; exact H.
+        -- destruct H as [H|H]; [|right; split; assumption]. subst x. left.
+           clear -Ei. revert Ei. generalize 1%nat. induction seen as [|s seen IHs]; intros n Ei; cbn [index_of] in Ei; [discriminate|].
+           destruct (beqb s (c :: t')) eqn:B; [left; apply beqb_eq; exact B|right; eapply IHs; exact Ei].
+      * rewrite IH, in_app_iff. cbn [In]. split.
+        -- intros [[H|[H|[]]]|[H Hn]].
+           ++ left; exact H.
+           ++ subst x. right. split; [left; reflexivity|discriminate].
+           ++ right. split; [right; exact H|exact Hn].
+        -- intros [H|[[H|H] Hn]].
+           ++ left; left; exact H.
+           ++ subst x. left. right. left. reflexivity.
+           ++ right. split; assumption.
+Qed.
+
+(* every footnote under the table is the (non-empty) footnote text of a shown item, and conversely *)
+Corollary table_footnote_iff c t x :
+  In x (fn_list (snd (emit c t (-1) (mk_fn [])))) <-> (exists i, In i (shown c t) /\ it_footnote i = x) /\ x <> [].
+Proof.
+  rewrite table_footnotes, firsts_spec. cbn [In]. rewrite in_map_iff. split.
+  - intros [[]|[[i [E Hi]] Hn]]. split; [exists i; split; assumption|exact Hn].
+  - intros [[i [Hi E]] Hn]. right. split; [exists i; split; assumption|exact Hn].
+Qed.
